@@ -1,11 +1,34 @@
 import Jap.Core.Validate
+import Jap.Core.ValidatePos
+import Jap.Lemmas.Validate
 import Jap.Gen.LenientBrackets
 /-!
 # C06 — unknown keys are never silently ignored; required keys are enforced
-(first stage: lenient-bracket table + witnesses; the general theorems follow below)
+
+Model: `Jap.Validate` (Core/Validate.lean): `validate` = `check_values` + `check_required` with the per-class
+parsers of `init_args` / list items and subcommand selection, over parser spec trees (`Node`) of any depth and
+configuration trees (`Val`).  Vocabulary of the statements: Core/ValidatePos.lean (`getPath`, `reach`, `levelIn`,
+`insertAt`, `nullAt`, `removeAt`).  The YAML loader is a parameter `ld` of every theorem.
+
+FULL STATEMENTS (what the property asks) and where the code — hence the faithful model — falls short:
+
+* "accepted ⇒ every key of the configuration, at every level, is defined by the parser":
+  `∀ path, (getPath cfg path).isSome → reach (root fs kvs) path` is a definition (`.pos _`) or data below a leaf.
+  FALSE in three ways, each a theorem below and an open finding:
+  `C06_leafless_counterexample` (a foreign key holding a mapping without leaves),
+  `C06_unselected_counterexample` (a key in the section of a non-selected subcommand),
+  `C06_dict_kwargs_counterexample` (a key below `dict_kwargs`).
+  Proved: `C06_no_unknown_partial` — every key path *that carries a leaf* is never `.undefinedKey`: it is a
+  definition, data, or falls in the two classes `.unselected` / `.dictKwargs`.
+* "a mapping is expected at a group key": `C06_scalar_for_group_counterexample` (DESIGN section 7 row 8).
+* required keys: `C06_required`, `C06_required_subcommand`, `C06_required_nulled` hold at full strength (the latter two
+  theorems about mutations assume `noClash`: no subcommand is named like an argument of its level);
+  `C06_required_removed` needs the mapping to keep a leaf: `C06_remove_last_leaf_counterexample`.
 -/
 namespace Jap.Props.C06
 open Jap.Validate
+
+/-! ## no lenient mode: the regenerated table of `lenient_check` brackets -/
 
 /-- the lenient mode is switched on only inside these brackets, none of which encloses `validate` -/
 def allowedBrackets : List (String × String × String × List String) := [
@@ -15,6 +38,12 @@ def allowedBrackets : List (String × String × String × List String) := [
   ("_core", "ArgumentParser.parse_known_args", "True", ["_parse_known_args"]),
   ("_typehints", "discard_init_args_on_class_path_change", "False", ["Namespace", "_check_value_key"])]
 
+/-- On the current source: `lenient_check=True` occurs in exactly four `with` brackets (printing the config,
+    `_apply_actions`' first pass, `add_sub_defaults`, the internal `parse_known_args`), nothing else sets it;
+    `validate` runs `check_values` unconditionally and `check_required` unless `skip_required`/lenient;
+    `_parse_common` calls `validate` under `not skip_validation` only; `parse_known_args` starts by raising
+    `NotImplementedError` for callers outside the package; `parse_args` turns leftovers into
+    "Unrecognized arguments". -/
 theorem C06_no_lenient :
     Jap.Gen.LenientBrackets.lenientBrackets = allowedBrackets
     ∧ Jap.Gen.LenientBrackets.lenientOther = []
@@ -23,5 +52,274 @@ theorem C06_no_lenient :
     ∧ Jap.Gen.LenientBrackets.knownArgsGuard.take 2 = ["caller not in {'jsonargparse', 'argcomplete'}", "NotImplementedError"]
     ∧ Jap.Gen.LenientBrackets.unrecognized = ["unk", "self.error", "Unrecognized arguments:"] := by
   decide
+
+/-- leftover command-line arguments are never ignored: the first option that is not in the parser's table is the error -/
+theorem C06_argv_leftover (ld : String → Val) (fs : Fields) (done : List (String × String)) (level k : String)
+    (rest : List (String × String)) (kvs : KV)
+    (hdone : ∀ o ∈ done, recognised (flatten "" "" fs) o.1 o.2 = true)
+    (hk : recognised (flatten "" "" fs) level k = false) :
+    parseArgv ld fs (done ++ (level, k) :: rest) kvs = .error (.unrecognized k) := by
+  unfold parseArgv
+  have : argvCheck (flatten "" "" fs) (done ++ (level, k) :: rest) = .error (.unrecognized k) := by
+    induction done with
+    | nil => simp [argvCheck, hk]
+    | cons o r ih =>
+      have h1 := hdone o (List.mem_cons_self)
+      simp only [List.cons_append, argvCheck, h1, if_true]
+      exact ih (fun o' ho' => hdone o' (List.mem_cons_of_mem _ ho'))
+  rw [this]
+
+/-! ## unknown keys -/
+
+/-- **C06_no_unknown (partial).**  For every parser spec tree, every loader and every accepted configuration:
+    a key path of the configuration below which there is at least one leaf is never a key without definition
+    at its position — at top level, in groups, in the selected subcommand's section, in `init_args` of the
+    selected class, in list items, at any depth. -/
+theorem C06_no_unknown_partial (ld : String → Val) (fs : Fields) (kvs : KV) (path : Path) (w : Val)
+    (h : validate ld fs kvs = .ok ()) (hg : getPath (.dict kvs) path = some w) (hl : leafless w = false) :
+    reach (root fs kvs) path ≠ .undefinedKey :=
+  reach_ne_undefined path (root_okAt h) hg hl
+
+/-- the same at any accepted inner position (a per-class parser, a list item, a group) -/
+theorem C06_no_unknown_inner (ld : String → Val) (fs : Fields) (kvs : KV) (p0 path : Path) (q : Pos) (w : Val)
+    (h : validate ld fs kvs = .ok ()) (hq : reach (root fs kvs) p0 = .pos q)
+    (hg : getPath q.val path = some w) (hl : leafless w = false) :
+    reach q path ≠ .undefinedKey :=
+  reach_ne_undefined path (okAt_reach p0 (root_okAt h) hq).1 hg hl
+
+/-- **C06_names_key (partial).**  For every parser spec tree and every accepted configuration: ONE foreign key `z`
+    carrying at least one leaf, inserted into the mapping at ANY position that has a definition — the top level,
+    a group, the section of the selected subcommand, `init_args` of the selected class, an item of a list, next to
+    `class_path`, at any depth — makes `validate` fail, and the error is the `unknown key` error whose position is that
+    key (followed, when the value is a mapping, by the path to its first deepest leaf, as `get_sorted_keys` orders them).
+    `stableAlong`: subcommand names are not argument names on the levels the path runs through. -/
+theorem C06_names_key_partial (ld : String → Val) (fs : Fields) (kvs : KV) (path : Path) (q : Pos) (z : String)
+    (w v' : Val)
+    (h : validate ld fs kvs = .ok ()) (hr : reach (root fs kvs) path = .pos q)
+    (hst : stableAlong (root fs kvs) path = true) (hfor : foreignAt q z = true)
+    (hins : insertAt z w path (.dict kvs) = some v') (hl : leafless w = false) :
+    ∃ kvs' tail cut, v' = .dict kvs' ∧ validate ld fs kvs' = .error (.unknown (path ++ [.key z] ++ tail) cut) := by
+  obtain ⟨kvs', rfl⟩ := modifyAt_dict (fun vq vq' _ hh => insertF_good hl vq vq' hh) hins
+  obtain ⟨tail, cut, he⟩ := insert_reported h hr hst hfor hins hl
+  exact ⟨kvs', tail, cut, rfl, he⟩
+
+/-! ### the full statements fail on the code: witnesses (open findings) -/
+
+private def ld0 : String → Val := fun s => .str s
+private def leafI : Node := .leaf .int false (some (.int 0))
+
+/-- FULL STATEMENT `validate = ok → every present key path is defined` is false: a foreign key whose value is a mapping
+    without leaves is accepted (open finding C06-leafless-foreign); so is the unrestricted `C06_names_key`. -/
+theorem C06_leafless_counterexample :
+    validate ld0 [("alpha", leafI)] [("alpha", .int 1), ("zz9", .dict [("q", .dict [])])] = .ok ()
+    ∧ reach (root [("alpha", leafI)] [("alpha", .int 1), ("zz9", .dict [("q", .dict [])])]) [.key "zz9"] = .undefinedKey
+    ∧ insertAt "zz9" (.dict [("q", .dict [])]) [] (.dict [("alpha", .int 1)])
+        = some (.dict [("alpha", .int 1), ("zz9", .dict [("q", .dict [])])]) := by
+  refine ⟨rfl, rfl, rfl⟩
+
+private def subSpec : Fields :=
+  [("alpha", leafI), ("subcommand", .subcommands true [("fit", [("beta", leafI)]), ("run", [("gamma", leafI)])])]
+
+/-- a key inside the section of a non-selected subcommand is never looked at (open finding C06-unselected-section) -/
+theorem C06_unselected_counterexample :
+    validate ld0 subSpec [("alpha", .int 1), ("subcommand", .str "fit"), ("fit", .dict [("beta", .int 2)]),
+                          ("run", .dict [("zz9", .int 1)])] = .ok ()
+    ∧ reach (root subSpec [("alpha", .int 1), ("subcommand", .str "fit"), ("fit", .dict [("beta", .int 2)]),
+                           ("run", .dict [("zz9", .int 1)])]) [.key "run", .key "zz9"] = .unselected := by
+  refine ⟨rfl, rfl⟩
+
+private def clsSpec : Fields := [("alpha", .classArg true [("m.Sub", [("beta", leafI)])])]
+
+/-- keys below `dict_kwargs` of a class specification are not looked at (open finding C06-dict-kwargs) -/
+theorem C06_dict_kwargs_counterexample :
+    validate ld0 clsSpec [("alpha", .dict [("class_path", .str "m.Sub"), ("init_args", .dict [("beta", .int 1)]),
+                                           ("dict_kwargs", .dict [("zz9", .int 1)])])] = .ok ()
+    ∧ reach (root clsSpec [("alpha", .dict [("class_path", .str "m.Sub"), ("init_args", .dict [("beta", .int 1)]),
+                                            ("dict_kwargs", .dict [("zz9", .int 1)])])])
+        [.key "alpha", .key "dict_kwargs", .key "zz9"] = .dictKwargs := by
+  refine ⟨rfl, rfl⟩
+
+/-- DESIGN section 7 row 8: a non-mapping value at a group key is accepted, with (`whole`) or without an option for the
+    group key (open finding C06-scalar-for-group) -/
+theorem C06_scalar_for_group_counterexample (whole : Bool) :
+    validate ld0 [("grp", .group whole [("beta", leafI)])] [("grp", .int 3)] = .ok () := by
+  cases whole <;> rfl
+
+/-! ### non-vacuity: the hypotheses are satisfiable by non-trivial states -/
+
+private def bigSpec : Fields :=
+  [("n", .leaf .int true none),
+   ("d", .group false [("a", .leaf .int true none), ("b", .leaf .str false (some (.str "s")))]),
+   ("m", .classArg true [("m.A", [("x", .leaf .int true none), ("y", .leaf .int false (some (.int 2))),
+                                   ("dc", .group true [("p", .leaf .int true none)])])]),
+   ("ld", .listOf false (.group true [("p", .leaf .int true none)])),
+   ("subcommand", .subcommands true [("s1", [("k", .leaf .int true none)]), ("s2", [("j", .leaf .int false none)])])]
+
+private def bigCfg : KV :=
+  [("n", .int 1), ("d", .dict [("a", .int 1)]),
+   ("m", .dict [("class_path", .str "m.A"), ("init_args", .dict [("x", .int 1), ("dc", .dict [("p", .int 4)])])]),
+   ("ld", .list [.dict [("p", .int 1)], .dict [("p", .int 2)]]), ("s1", .dict [("k", .int 5)])]
+
+/-- all node kinds, implicit subcommand selection: accepted -/
+example : validate ld0 bigSpec bigCfg = .ok () := rfl
+
+/-- `C06_names_key_partial` applies deep inside: `init_args` of the class, then a nested dataclass group -/
+example : ∃ q, reach (root bigSpec bigCfg) [.key "m", .key "init_args", .key "dc"] = .pos q
+    ∧ stableAlong (root bigSpec bigCfg) [.key "m", .key "init_args", .key "dc"] = true
+    ∧ foreignAt q "zz9" = true := ⟨_, rfl, rfl, rfl⟩
+
+/-- ... and inside the second item of the list, and inside the implicitly selected section -/
+example : ∃ q, reach (root bigSpec bigCfg) [.key "ld", .idx 1] = .pos q ∧ foreignAt q "zz9" = true
+    ∧ stableAlong (root bigSpec bigCfg) [.key "ld", .idx 1] = true := ⟨_, rfl, rfl, rfl⟩
+example : ∃ q, reach (root bigSpec bigCfg) [.key "s1"] = .pos q ∧ foreignAt q "zz9" = true
+    ∧ stableAlong (root bigSpec bigCfg) [.key "s1"] = true := ⟨_, rfl, rfl, rfl⟩
+
+/-- what the theorem predicts, computed: the foreign key in the nested group is named with its full position -/
+example : (insertAt "zz9" (.int 7) [.key "m", .key "init_args", .key "dc"] (.dict bigCfg)).map
+      (fun v => match v with | .dict k => validate ld0 bigSpec k | _ => .ok ())
+    = some (.error (.unknown [.key "m", .key "init_args", .key "dc", .key "zz9"] 2)) := rfl
+
+/-- `C06_required` applies to the class parameter `x` (per-class parser at `m.init_args`) and to the section key `s1.k` -/
+example : reach (root bigSpec bigCfg) [.key "m", .key "init_args"]
+      = .pos ⟨true, .group true [("x", .leaf .int true none), ("y", .leaf .int false (some (.int 2))),
+                                  ("dc", .group true [("p", .leaf .int true none)])],
+              .dict [("x", .int 1), ("dc", .dict [("p", .int 4)])]⟩ := rfl
+example : (levelIn bigSpec bigCfg ["s1"]).map (·.1) = some [("k", .leaf .int true none)] := rfl
+
+/-! ## required keys -/
+
+/-- **C06_required.**  In an accepted configuration every required argument has a non-null value: for the top-level
+    parser (`p0 = []`) and for every per-class parser reached at `p0` (`init_args` of the selected class of a
+    class-typed argument, an item of a `List[dataclass]`, nested to any depth), for every level `ks` of that
+    parser (through groups and the section of the selected subcommand) and every required key `r` of the level. -/
+theorem C06_required (ld : String → Val) (fs : Fields) (kvs : KV) (p0 : Path) (w : Bool) (fs1 : Fields) (kvs1 : KV)
+    (ks : List String) (fs2 : Fields) (kvs2 : KV) (r : String) (n : Node)
+    (h : validate ld fs kvs = .ok ())
+    (hp : reach (root fs kvs) p0 = .pos ⟨true, .group w fs1, .dict kvs1⟩)
+    (hl : levelIn fs1 kvs1 ks = some (fs2, kvs2))
+    (ha : assoc r fs2 = some n) (hn : isRequiredNode n = true) :
+    ∃ v, getPath (.dict kvs) (p0 ++ (ks ++ [r]).map .key) = some v ∧ v ≠ .null := by
+  obtain ⟨hq, hpath⟩ := okAt_reach p0 (root_okAt h) hp
+  obtain ⟨pre, cut, hreq⟩ := okAt_parser_req hq
+  have hlev := reqFields_levelIn ks hreq hl
+  obtain ⟨v, hv, hnn⟩ := reqFields_required hlev ha hn
+  refine ⟨v, ?_, hnn⟩
+  have hroot : (root fs kvs).val = .dict kvs := rfl
+  rw [← hroot, hpath]
+  simp only [List.map_append, List.map_cons, List.map_nil]
+  rw [getPath_append]
+  rcases levelIn_getPath ks hl with h0 | h1
+  · subst h0; simp [assoc] at hv
+  · rw [h1]
+    simp [getPath_dict_cons, hv, getPath_nil]
+
+/-- **C06_required (subcommand).**  A required subcommand of any level of any accepted parser is selected, and it is one
+    of the choices. -/
+theorem C06_required_subcommand (ld : String → Val) (fs : Fields) (kvs : KV) (p0 : Path) (w : Bool) (fs1 : Fields)
+    (kvs1 : KV) (ks : List String) (fs2 : Fields) (kvs2 : KV) (d : String) (cs : Choices)
+    (h : validate ld fs kvs = .ok ())
+    (hp : reach (root fs kvs) p0 = .pos ⟨true, .group w fs1, .dict kvs1⟩)
+    (hl : levelIn fs1 kvs1 ks = some (fs2, kvs2))
+    (hs : subOf fs2 = some (d, true, cs)) :
+    ∃ c cfs, selected fs2 kvs2 = some c ∧ assoc c cs = some cfs := by
+  obtain ⟨hq, _⟩ := okAt_reach p0 (root_okAt h) hp
+  obtain ⟨pre, cut, hreq⟩ := okAt_parser_req hq
+  have hlev := reqFields_levelIn ks hreq hl
+  have hn := reqFields_ok_mem hlev (subOf_mem hs)
+  rw [reqNode_sub] at hn
+  unfold selected
+  simp only [hs]
+  cases hsel : selectedOf d cs kvs2 with
+  | none => simp [hsel] at hn
+  | some c =>
+    simp only [hsel] at hn
+    obtain ⟨cfs, hc⟩ := reqChoices_required_mem hn
+    exact ⟨c, cfs, rfl, hc⟩
+
+/-! ## a required key made missing -/
+
+/-- **C06_required_removed (nulling).**  For every parser spec tree and every accepted configuration: setting ONE required key
+    to `null` — at the top level, in a group, in the selected subcommand's section (`ks`), for the top-level parser
+    (`p0 = []`) or for any per-class parser (`init_args` of a selected class, a `List[dataclass]` item, at any depth `p0`)
+    — makes `validate` fail with the `required` error whose position is exactly that key.
+    `stableAlong` / `stableLevels`: subcommand names are not argument names on the levels involved. -/
+theorem C06_required_nulled (ld : String → Val) (fs : Fields) (kvs : KV) (p0 : Path) (w : Bool) (fs1 : Fields) (kvs1 : KV)
+    (ks : List String) (fs2 : Fields) (kvs2 : KV) (r : String) (n : Node) (v' : Val)
+    (h : validate ld fs kvs = .ok ())
+    (hp : reach (root fs kvs) p0 = .pos ⟨true, .group w fs1, .dict kvs1⟩)
+    (hst : stableAlong (root fs kvs) p0 = true)
+    (hl : levelIn fs1 kvs1 ks = some (fs2, kvs2)) (hsl : stableLevels fs1 kvs1 ks = true)
+    (ha : assoc r fs2 = some n) (hn : isRequiredNode n = true)
+    (hm : nullAt r (p0 ++ ks.map .key) (.dict kvs) = some v') :
+    ∃ kvs', v' = .dict kvs' ∧
+      validate ld fs kvs' = .error (.required (p0 ++ (ks ++ [r]).map .key) p0.length) := by
+  have hm' : modifyAt (nullF r) (p0 ++ ks.map .key) (.dict kvs) = some v' := hm
+  obtain ⟨kvs', rfl⟩ := modifyAt_dict (fun vq vq' _ hh => nullF_good r vq vq' hh) hm'
+  exact ⟨kvs', rfl, missing_reported (nullF_endOK r) h hp hst hl hsl ha hn (fun vq' hh => nullF_good r _ _ hh) hm'⟩
+
+/-- **C06_required_removed (removal).**  The same for removing the key, provided the mapping it is removed from still holds a
+    leaf afterwards (`hleaf`).  Without that proviso the statement is false for the code: a namespace without leaves is
+    invisible, so removing the only key of the section of an *implicitly* selected subcommand deselects the subcommand —
+    `C06_remove_last_leaf_counterexample`. -/
+theorem C06_required_removed (ld : String → Val) (fs : Fields) (kvs : KV) (p0 : Path) (w : Bool) (fs1 : Fields) (kvs1 : KV)
+    (ks : List String) (fs2 : Fields) (kvs2 : KV) (r : String) (n : Node) (v' : Val)
+    (h : validate ld fs kvs = .ok ())
+    (hp : reach (root fs kvs) p0 = .pos ⟨true, .group w fs1, .dict kvs1⟩)
+    (hst : stableAlong (root fs kvs) p0 = true)
+    (hl : levelIn fs1 kvs1 ks = some (fs2, kvs2)) (hsl : stableLevels fs1 kvs1 ks = true)
+    (ha : assoc r fs2 = some n) (hn : isRequiredNode n = true)
+    (hleaf : leaflessKVs (erase r kvs2) = false)
+    (hm : removeAt r (p0 ++ ks.map .key) (.dict kvs) = some v') :
+    ∃ kvs', v' = .dict kvs' ∧
+      validate ld fs kvs' = .error (.required (p0 ++ (ks ++ [r]).map .key) p0.length) := by
+  have hm' : modifyAt (removeF r) (p0 ++ ks.map .key) (.dict kvs) = some v' := hm
+  have hgood : ∀ vq', removeF r (.dict kvs2) = some vq' → GoodPair (.dict kvs2) vq' := by
+    intro vq' hh
+    rw [removeF_dict, Option.some.injEq] at hh
+    subst hh
+    exact ⟨Or.inl ⟨_, _, rfl, rfl⟩, fun _ => by rw [leafless_dict]; exact hleaf⟩
+  have hres := missing_reported (removeF_endOK r) h hp hst hl hsl ha hn hgood hm'
+  rw [modifyAt_append] at hm'
+  have hq : getPath (.dict kvs) p0 = some (.dict kvs1) := reach_getPath p0 hp
+  have hkind : ∃ kvs', v' = .dict kvs' := by
+    refine modifyAt_dict (f := modifyAt (removeF r) (ks.map .key)) ?_ hm'
+    intro vq vq' hg hfq
+    rw [hq, Option.some.injEq] at hg
+    subst hg
+    refine modifyAt_good (ks.map .key) ?_ hfq
+    intro vq2 vq2' hg2 hfq2
+    rw [levelIn_modify_getPath (removeF_endOK r).onlyDict ks hl hfq, Option.some.injEq] at hg2
+    subst hg2
+    exact hgood vq2' hfq2
+  obtain ⟨kvs', rfl⟩ := hkind
+  exact ⟨kvs', rfl, hres⟩
+
+private def optSub : Fields := [("subcommand", .subcommands false [("fit", [("k", .leaf .int true none)])])]
+
+/-- removing the last leaf of the section of an implicitly selected, optional subcommand gives a configuration without
+    subcommand, which is accepted (and rightly so): the proviso `hleaf` of `C06_required_removed` is needed -/
+theorem C06_remove_last_leaf_counterexample :
+    validate ld0 optSub [("fit", .dict [("k", .int 1)])] = .ok ()
+    ∧ levelIn optSub [("fit", .dict [("k", .int 1)])] ["fit"] = some ([("k", .leaf .int true none)], [("k", .int 1)])
+    ∧ removeAt "k" [.key "fit"] (.dict [("fit", .dict [("k", .int 1)])]) = some (.dict [("fit", .dict [])])
+    ∧ validate ld0 optSub [("fit", .dict [])] = .ok () := by
+  refine ⟨rfl, rfl, rfl, rfl⟩
+
+/-- non-vacuity of `C06_required_nulled`, computed on the configuration with all node kinds:
+    the class parameter `x` (inside `init_args`), the key `p` of the second list item, the key `k` of the section -/
+example : stableAlong (root bigSpec bigCfg) [.key "m", .key "init_args"] = true
+    ∧ (nullAt "x" [.key "m", .key "init_args"] (.dict bigCfg)).map
+        (fun v => match v with | .dict k => validate ld0 bigSpec k | _ => .ok ())
+      = some (.error (.required [.key "m", .key "init_args", .key "x"] 2)) := ⟨rfl, rfl⟩
+example : (nullAt "p" [.key "ld", .idx 1] (.dict bigCfg)).map
+        (fun v => match v with | .dict k => validate ld0 bigSpec k | _ => .ok ())
+      = some (.error (.required [.key "ld", .idx 1, .key "p"] 2)) := rfl
+example : stableLevels bigSpec bigCfg ["s1"] = true
+    ∧ (nullAt "k" [.key "s1"] (.dict bigCfg)).map
+        (fun v => match v with | .dict k => validate ld0 bigSpec k | _ => .ok ())
+      = some (.error (.required [.key "s1", .key "k"] 0)) := ⟨rfl, rfl⟩
+example : (removeAt "a" [.key "d"] (.dict (bigCfg ++ [("zz", .dict [])]))).map
+        (fun v => match v with | .dict k => validate ld0 bigSpec k | _ => .ok ())
+      = some (.error (.required [.key "d", .key "a"] 0)) := rfl
 
 end Jap.Props.C06
